@@ -107,6 +107,13 @@ func runC13(p *Program, r *Result) {
 		}
 	}
 
+	r.Rule("R13.7", "every error a reader returns is remembered, so that the next Read fails as well", 4)
+	for _, spec := range [][3]string{{pkgStream, "Reader", "Read"}, {pkgArmor, "armoredReader", "Read"}} {
+		if f := r.anchor(spec[0], spec[1], spec[2]); f != nil {
+			checkReaderLatch(p, r, f)
+		}
+	}
+
 	r.Rule("R13.3", "a source error never turns into a clean end of stream", 4)
 	{
 		// productions of io.EOF in the library
@@ -115,17 +122,26 @@ func runC13(p *Program, r *Result) {
 			if !inPkg(fn, libPkgs...) {
 				continue
 			}
+			if fn.Parent() != nil {
+				continue // closures are visited with their parent
+			}
 			tb := p.TB(fn)
-			ei := errorResultIndex(fn.Signature)
-			for _, ret := range returnsOf(fn) {
-				if ei < 0 {
-					continue
+			for i, pr := range p.producersOf(fn, isEOFValue) {
+				if pr.Kind == "store" {
+					continue // below
 				}
-				if short(tb.Term(resultsOf(ret)[ei]).String()) == "io.EOF" {
-					n++
-					okp := strings.HasSuffix(fn.String(), "armoredReader).Read$2") // drainTrailing
-					r.Check(okp, fn.String(), "produce:io.EOF", r.pos(ret), "armor: drainTrailing after the footer", "io.EOF is produced here; the documented producers are armor's drainTrailing and stream.Reader.Read's probe branch")
+				if pr.Kind == "arg" {
+					if n := calleeName(pr.At.(ssa.CallInstruction).Common()); n == "errors.Is" || strings.HasPrefix(n, "fmt.") {
+						continue // comparisons and messages do not produce an end of stream
+					}
 				}
+				n++
+				// the armor reader's end-of-armor drain: only once reading the rest has succeeded
+				root := fn.String() == "(*"+pkgArmor+".armoredReader).Read"
+				_, readOK := findFact(pr.Facts, func(a Atom) bool {
+					return a.Kind == "cmp" && a.Op == "==" && a.Y.Op == "Nil" && strings.HasPrefix(short(a.X.String()), "io.ReadAll(")
+				})
+				r.Check(root && readOK, fn.String(), "produce:io.EOF#"+itoa(i), r.pos(pr.At), "armor: the end-of-armor drain, after io.ReadAll of the rest succeeded", "io.EOF is produced here; the documented producers are armor's end-of-armor drain (after a successful read of the rest) and stream.Reader.Read's probe branch")
 			}
 			for _, b := range fn.Blocks {
 				for _, in := range b.Instrs {
@@ -260,4 +276,63 @@ func emptySliceValue(v ssa.Value) bool {
 		}
 	}
 	return false
+}
+
+// checkReaderLatch: every return of a Read method that may carry an error
+// returns the remembered error field, or a value stored to it on every path
+// before the return, or the result of a method of the same receiver that
+// stores to the field on every path to each of its returns.
+func checkReaderLatch(p *Program, r *Result, fn *ssa.Function) {
+	tb := p.TB(fn)
+	ei := errorResultIndex(fn.Signature)
+	isErrStore := func(in ssa.Instruction, val ssa.Value) bool {
+		st, ok := in.(*ssa.Store)
+		if !ok {
+			return false
+		}
+		fa, ok := st.Addr.(*ssa.FieldAddr)
+		if !ok || fieldName(fa.X.Type(), fa.Field) != "err" {
+			return false
+		}
+		return val == nil || st.Val == val
+	}
+	latching := func(m *ssa.Function) bool {
+		if m == nil || m.Blocks == nil {
+			return false
+		}
+		bad := p.MustPass([]Loc{blockStart(m.Blocks[0])}, isReturn, func(in ssa.Instruction) bool { return isErrStore(in, nil) })
+		return len(bad) == 0
+	}
+	for i, ret := range returnsOf(fn) {
+		ev := resultsOf(ret)[ei]
+		if isNilConst(ev) {
+			continue
+		}
+		key := "latch#" + itoa(i)
+		t := short(tb.Term(ev).String())
+		if t == "Field(Recv.err)" {
+			r.OK(fn.String(), key, r.pos(ret), "returns the remembered error")
+			continue
+		}
+		vals := []ssa.Value{ev}
+		if ph, ok := ev.(*ssa.Phi); ok {
+			vals = ph.Edges
+		}
+		ok := true
+		for _, v := range vals {
+			if isNilConst(v) {
+				continue
+			}
+			if c, isCall := v.(*ssa.Call); isCall {
+				if m := c.Call.StaticCallee(); m != nil && m.Signature.Recv() != nil && len(c.Call.Args) > 0 && c.Call.Args[0] == ssa.Value(fn.Params[0]) && latching(m) {
+					continue
+				}
+			}
+			bad := p.MustPass([]Loc{blockStart(fn.Blocks[0])}, func(in ssa.Instruction) bool { return in == ssa.Instruction(ret) }, func(in ssa.Instruction) bool { return isErrStore(in, v) })
+			if len(bad) != 0 {
+				ok = false
+			}
+		}
+		r.Check(ok, fn.String(), key, r.pos(ret), "the returned error was stored in the err field first", "the error "+t+" is returned without being remembered in the err field: the next Read would carry on after a failure")
+	}
 }
